@@ -4,21 +4,23 @@ from runner import Prop
 from common import hx, unhx
 import gen as G
 
-CLEAN_FIELDS = ["ofiles", "otests", "writes", "printed", "passed", "failed", "added", "updated", "skipped", "removed"]
+CLEAN_FIELDS = ["layout", "ofiles", "otests", "writes", "printed", "passed", "failed", "added", "updated", "skipped", "removed"]
 
 
 def frame(tid, body):
     return b"\n[" + tid + b"]\n" + body + b"\n---\n"
 
 
-def parse_entries(content):
-    """entries of a well-formed snapshot file: list of (id-without-brackets, body)"""
-    out = []
+def parse_file(content):
+    """(entries, residue) of a snapshot file: entries = list of (id-without-brackets, body); residue = the non-blank lines
+    that belong to no entry. An entry is a `[id]` line that opens the file or follows a blank line, its body,
+    and the `---` line that closes it; how many blank lines separate entries is not judged."""
+    out, residue = [], []
     lines = content.split(b"\n")
     i = 0
     while i < len(lines):
         m = re.match(rb"^\[(.*)\]$", lines[i], re.S)
-        if m and i > 0 and lines[i - 1] == b"":
+        if m and (i == 0 or lines[i - 1] == b""):
             j = i + 1
             while j < len(lines) and lines[j] != b"---":
                 j += 1
@@ -26,8 +28,15 @@ def parse_entries(content):
                 out.append((m.group(1), b"\n".join(lines[i + 1:j])))
                 i = j + 1
                 continue
+        if lines[i] != b"":
+            residue.append(lines[i])
         i += 1
-    return out
+    return out, residue
+
+
+def parse_entries(content):
+    """entries of a snapshot file: list of (id-without-brackets, body)"""
+    return parse_file(content)[0]
 
 
 def env_at_clean(case, ops):
@@ -42,7 +51,7 @@ def env_at_clean(case, ops):
 
 
 class CleanBase(Prop):
-    fields = {"obs": ["outcome", "errors", "logs", "writes", "line"], "fs": "*", "counters": "*", "clean": CLEAN_FIELDS, "readsum": "*"}
+    fields = {"obs": ["outcome", "errors", "logs", "writes", "~line"], "fs": "*", "counters": "*", "clean": CLEAN_FIELDS, "readsum": ["ok", "agree", "~render"]}
 
     def gen_tree(self, r, sort_names=False, nontest_ids=False):
         """Returns (setup ops, run ops, info). Layout: def/ holds the default multi-entry file (+ stale entries),
@@ -251,9 +260,6 @@ class C09(CleanBase):
             d, nme = path.rsplit(b"/", 1)
             if (d != b"/S/def" or b".snap" not in nme) and after.get(p) != before[p]:
                 fails.append({"msg": "file outside Clean's remit touched: %r" % path})
-        # summary says removed iff deleting
-        if (c["otests"] != "~" or c["ofiles"] != "~") and (c["removed"] == "1") != deletes:
-            fails.append({"msg": "summary wording removed=%s but deletes=%s" % (c["removed"], deletes)})
         return fails
 
     def nontrivial(self, case, ops, results):
